@@ -149,7 +149,7 @@ def gen_3(ctx, rep):
             if it == 'self.arcs.items()' and isinstance(gen.target, ast.Tuple) and len(gen.target.elts) == 2:
                 label, nxt = norm(gen.target.elts[0]), norm(gen.target.elts[1])
                 e = g.elt
-                sides = {norm(e.left), norm(e.comparators[0])} if isinstance(e, ast.Compare) and len(e.ops) == 1 \
+                sides = {xn(e.left), xn(e.comparators[0])} if isinstance(e, ast.Compare) and len(e.ops) == 1 \
                     and isinstance(e.ops[0], ast.Is) else set()
                 ok = sides in ({nxt, '%s.arcs.get(%s)' % (other, label)}, {nxt, '%s.arcs[%s]' % (other, label)})
                 why = 'arc targets are not compared label by label: %s' % norm(e)
